@@ -107,13 +107,19 @@ func Tokens(src string, d [4]string) []Tok {
 	m := matcher(d)
 	p, line := 0, 0
 	opaque := ""
+	noEnd := map[string]bool{}
 	for p < len(src) {
 		if opaque != "" {
-			if end := endMatcher(d, "end"+opaque).FindStringIndex(src[p:]); end != nil && end[0] > 0 {
-				body := src[p : p+end[0]]
-				out = append(out, Tok{Kind: Text, Src: body, Line: line, Off: p})
-				line += strings.Count(body, "\n")
-				p += end[0]
+			// (a search that has failed is not repeated: there is no such end tag further on either)
+			if !noEnd[opaque] {
+				if end := endMatcher(d, "end"+opaque).FindStringIndex(src[p:]); end == nil {
+					noEnd[opaque] = true
+				} else if end[0] > 0 {
+					body := src[p : p+end[0]]
+					out = append(out, Tok{Kind: Text, Src: body, Line: line, Off: p})
+					line += strings.Count(body, "\n")
+					p += end[0]
+				}
 			}
 			opaque = ""
 		}
